@@ -61,14 +61,12 @@ theorem chainsEquivalent_of {a b : List Cert} (hb : b.length < 2 ^ 62) (hl : b.l
     (hids : (b.take a.length).map (·.id) = a.map (·.id)) : chainsEquivalent a b = true := by
   unfold chainsEquivalent
   have h1 : Gen.chainsLenMismatch a.length b.length = false := by
-    simp only [Gen.chainsLenMismatch, I64.sub, I64.wrap64]
+    rw [chainsLenMismatch_iff]
     rcases hl with e | e
-    · have : (a.length : Int) = b.length := by omega
-      simp [this]
-    · have : (a.length : Int) = ((b.length : Int) - 1 + 2 ^ 63) % 2 ^ 64 - 2 ^ 63 := by omega
-      rw [Bool.and_eq_false_iff]
-      right
-      exact decide_eq_false (by intro hne; exact hne this)
+    · left; omega
+    · right
+      simp only [I64.sub, I64.wrap64]
+      omega
   simp only [h1, Bool.false_eq_true, ite_false]
   -- ids agree position by position
   have : ∀ (a b : List Cert), a.length ≤ b.length → (b.take a.length).map (·.id) = a.map (·.id) →
